@@ -376,10 +376,10 @@ def cases(tier, seed):
   for n, d, k, tiers in ((3, 1, 1, Q), (3, 2, 1, Q), (3, 2, 2, Q), (4, 2, 1, T), (4, 2, 2, T)):
     out.append(case('nca_n%d_d%d_k%d' % (n, d, k), nca_case(n, d, k), FUNCS,
                     '%d arbitrary points in R^%d, every label partition into <= 2 classes, L arbitrary %dx%d, sign in {+1,-1}' % (n, d, k, d),
-                    tiers=tiers, cost=20 * n * k, proof_timeout_ms=120000, validate=6, max_paths=10000, hard_timeout_s=3000, scale=0.5))
+                    tiers=tiers, cost=20 * n * k, proof_timeout_ms=120000, validate=6, max_paths=10000, hard_timeout_s=(900 if tier == "quick" else 3000), scale=0.5))
     out.append(case('mlkr_n%d_d%d_k%d' % (n, d, k), mlkr_case(n, d, k), FUNCS,
                     '%d arbitrary points in R^%d with arbitrary real targets, L arbitrary %dx%d' % (n, d, k, d),
-                    tiers=tiers, cost=20 * n * k, proof_timeout_ms=120000, validate=6, hard_timeout_s=3000, scale=0.5))
+                    tiers=tiers, cost=20 * n * k, proof_timeout_ms=120000, validate=6, hard_timeout_s=(900 if tier == "quick" else 3000), scale=0.5))
   # widely separated points: squared distances of order 1e4..1e5, the softmax must be stabilised per row (float64 behaviour, sampled)
   out.append(case('nca_n3_d2_k2_large_scale_sampled', nca_case(3, 2, 2, large=True), FUNCS,
                   '3 random dyadic points of magnitude ~80 in R^2, random L (2x2): value and gradient against the row-stabilised reference '
